@@ -708,6 +708,10 @@ func (e *Exec) convert(fr *Frame, st *State, xv ssa.Value, to types.Type) Value 
 			n := e.fresh(SInt, "convlen")
 			if eb, ok := sl.Elem().Underlying().(*types.Basic); ok && eb.Kind() == types.Byte {
 				e.assume(st.pc, Eq(n, App(SInt, "slen", t)))
+				// the new array holds the bytes of the string
+				h := e.heapRead(st, "A_Int", ArrSort(ArrSort(SInt)))
+				e.emit("(assert (=> %s (forall ((j!c Int)) (! (= (select (select %s %s) j!c) (sat %s j!c)) :pattern ((select (select %s %s) j!c))))))",
+					st.pc.S, h.S, id.S, t.S, h.S, id.S)
 			} else {
 				// string -> []rune: ceil(len/4) <= n <= len
 				e.assume(st.pc, And(Le(n, App(SInt, "slen", t)), Le(App(SInt, "slen", t), App(SInt, "*", IntLit(4), n)), Le(IntLit(0), n)))
